@@ -16,6 +16,7 @@ const (
 	Int    = "int"    // I
 	Float  = "float"  // F
 	Bool   = "bool"   // B
+	Bytes  = "bytes"  // S -> []byte(S): a value of an uncomparable type
 	Nil    = "nil"    // untyped nil
 	Prim   = "prim"   // S = Boolean Int ... Any Bytes Empty ErrorResult
 	Fmt    = "fmt"    // S = typed expr.ValidationFormat value
@@ -200,6 +201,8 @@ func writeArg(b *strings.Builder, a *Arg, ind int, refs map[int]bool) {
 		b.WriteString(strconv.FormatFloat(a.F, 'g', -1, 64))
 	case Bool:
 		b.WriteString(strconv.FormatBool(a.B))
+	case Bytes:
+		b.WriteString("[]byte(" + strconv.Quote(a.S) + ")")
 	case Nil:
 		b.WriteString("nil")
 	case Prim:
